@@ -164,6 +164,21 @@ def _compute(torch):
     return torch.cat([s.reshape(-1), iq.reshape(-1), ld.reshape(-1), r.reshape(-1)])
 
 
+def _stochastic_logdet(torch):
+    import warnings
+
+    from linear_operator import settings
+    from linear_operator.operators import DenseLinearOperator
+
+    g = torch.Generator().manual_seed(7)
+    a = torch.randn(5, 5, generator=g, dtype=torch.float64)
+    a = a @ a.T + 5 * torch.eye(5, dtype=torch.float64)
+    with warnings.catch_warnings():
+        warnings.simplefilter("ignore")
+        with settings.max_cholesky_size(0), settings.num_trace_samples(3):
+            DenseLinearOperator(a).logdet()
+
+
 def run_case(case, ctx):
     cat, torch = _catalog()
     objects, prog = case["objects"], case["program"]
@@ -219,6 +234,10 @@ def run_case(case, ctx):
                 with cm:
                     _expected_after_enter(model, o, torch)
                     check("enter", o, depth, False, early)
+                    if case.get("compute") and o["name"] == "deterministic_probes":
+                        # fill whatever auxiliary process-global state the block owns (the probe-vector cache): a stochastic
+                        # log-determinant inside the block
+                        _stochastic_logdet(torch)
                     run_block(b["body"], depth + 1)
                     if b["raises"]:
                         raised = True
@@ -227,7 +246,15 @@ def run_case(case, ctx):
                 pass
             model.update(snapshot)
             check("exit_exc" if raised else "exit", o, depth, raised, early)
+            aux_now = {k: v for k, v in settings_guard.snapshot().items() if k.split(".")[1] not in settings_guard._ATTRS}
+            if depth == 0 and aux_now != aux0:
+                ctx.fail("auxiliary_settings_state", "leak", cls=o["name"], path=o["name"], tags={"exception_exit"} if raised else set(),
+                         detail={k: (repr(aux0.get(k)), repr(v)) for k, v in aux_now.items() if aux0.get(k) != v})
+                settings_guard.check_and_reset()
+            elif depth == 0:
+                ctx.ok("auxiliary_settings_state", o["name"], True)
 
+    aux0 = {k: v for k, v in settings_guard.snapshot().items() if k.split(".")[1] not in settings_guard._ATTRS}
     try:
         run_block(prog, 0)
     finally:
